@@ -1612,7 +1612,7 @@ mzd_t *mzd_submatrix(mzd_t *S, mzd_t const *M, rci_t const startrow, rci_t const
       for (rci_t x = startrow, i = 0; i < nrows; ++i, ++x) {
         /* process remaining bits */
         word temp                      = mzd_row_const(M, x)[startword + ncols / m4ri_radix] & mask_end;
-        mzd_row(S, i)[ncols / m4ri_radix] = temp;
+        mzd_row(S, i)[ncols / m4ri_radix] = (mzd_row(S, i)[ncols / m4ri_radix] & ~mask_end) | temp;
       }
     }
   } else {
